@@ -13,7 +13,7 @@ from common import *
 
 # one physical line: common.run_shards maps coqc's error lines to ENCLOSURE cases assuming a one-line header
 IMPORTS = ("From CV Require Import Base.Cmp Base.Ext Model.C02_MH Model.C02_Tune Proofs.C02_Balance Proofs.C02_Measure. "
-           "From Coq Require Import QArith Reals Lra. From Interval Require Import Tactic.")
+           "From Coq Require Import QArith Reals Lra List. Import ListNotations. From Interval Require Import Tactic.")
 RULE = ("one case = one transition (or one 3-step chain) of one sampler site (10 sites: 5 kernels x 2 interfaces) on one target "
         "(quadratic / quartic user-defined log-densities with optional NaN/-inf/+inf region, cuqi Gaussian posteriors with integer "
         "matrices), dims 1-3, scales scalar/vector/tiny/>1, histories fresh / after warm-up (tuned scale) / after state reload, "
@@ -294,7 +294,14 @@ class Driver:
         elif T.kind == "lin":
             model = cuqi.model.LinearModel(T.A)
             y = cuqi.distribution.Gaussian(model, 1.0 / T.lam, name="y")
-            xpr = cuqi.distribution.Gaussian(T.m0, 1.0 / T.dele, name="x")
+            if T.spec.get("box"):
+                # a prior with BOUNDED support: Uniform on a box whose only reachable face is x_k = thr (the hole of the target spec);
+                # the posterior log-density is -inf outside, a constant plus the Gaussian log-likelihood inside
+                lo, hi = np.full(T.dim, -2.0 ** 20), np.full(T.dim, 2.0 ** 20)
+                hi[T.hole[0]] = T.hole[1]
+                xpr = cuqi.distribution.Uniform(lo, hi, name="x")
+            else:
+                xpr = cuqi.distribution.Gaussian(T.m0, 1.0 / T.dele, name="x")
 
             class SpyPost(cuqi.distribution.Posterior):
                 def logd(self, *a, **k):
@@ -1430,6 +1437,28 @@ def run(ctx):
         c, _ = build_case(ctx, spec)
         c.meta = _jsonable(c.meta)
         cases.append(c)
+    # L16: a COMPOSITE target whose prior has bounded support (cuqi Posterior = Gaussian likelihood x Uniform prior): a proposal outside
+    # the support has posterior log-density -inf and must be rejected, a state outside the support must be left at the first proposal
+    # into it (MH probability 1), transitions inside the support follow the likelihood ratio
+    for site in ("E.MH", "L.MH", "E.CWMH", "L.CWMH"):
+        for hc in ("star:ninf", "cur:ninf", None):
+            for _ in range(ctx.n(2, 10)):
+                idx += 1
+                spec = gen_spec(ctx, site, "lin", hc or "star:ninf", "fresh", idx)
+                if hc is None:
+                    spec["steer"], spec["hole_class"] = False, None
+                    spec["x0"][0] = min(spec["x0"][0], 0.5)
+                if hc == "cur:ninf" and _ % 2 == 0:
+                    # aim the proposal's first coordinate back INTO the support (x_0 near 1): MH probability 1, must be accepted
+                    s0_ = spec["scale"][0] if isinstance(spec["scale"], list) else spec["scale"]
+                    spec["z"][0] = -math.ceil(((spec["x0"][0] - 1.0) / s0_) * 4) / 4
+                spec["target"]["box"] = True
+                spec["target"]["del"], spec["target"]["m0"] = 0.0, [0] * len(spec["x0"])
+                spec["optcell"] = "L16:posterior-with-uniform-prior/%s" % (hc or "inside")
+                spec["opts"] = {}
+                c, ob = build_case(ctx, finalize_spec(ctx, spec))
+                c.meta = _jsonable(c.meta)
+                cases.append(c)
     oc, trecs = option_cases(ctx)
     cases += oc
     cases += tune_cases(ctx, tune_recs + trecs)
@@ -1858,13 +1887,16 @@ def legacy_adapt_cases(ctx):
             Na = int(0.1 * N)
             star = {"mh": "star_mh", "pcn": "star_pcn", "cw": "(star_cw %d)" % d}[kind]
             for c in range(ncomp):
-                term = cr(scale0[c] if kind == "cw" else scale0)
+                lam0 = cr(scale0[c] if kind == "cw" else scale0)
+                wins = []
                 for j in range(3):
                     win = acc[j * Na:(j + 1) * Na]
                     if len(win) < Na:
                         break
                     a = sum(w[c] for w in win)
-                    term = "(tune_temp %s %d (hat_acc %d %d) %s)" % (term, j + 1, a, Na, star)
+                    wins.append("(%s, %s)" % (cz(a), cz(Na)))
+                    # the j-th unclipped parameter of the model's run over the windows so far (Model/C02_Tune.v tune_temps)
+                    term = "(nth %d (tune_temps %s 1 %s %s) 0)" % (j, lam0, star, clist(wins))
                     if Na * (j + 1) not in seen:
                         break
                     sv = seen[Na * (j + 1)]
@@ -1877,7 +1909,8 @@ def legacy_adapt_cases(ctx):
                     meta = {"op": "legacy_adapt", "site": site, "target": tspec, "scale0": scale0, "x0": x0, "N": N, "seed": seed,
                             "adaptation": j + 1, "component": c, "acc": [w[c] for w in acc[:(j + 1) * Na]], "observed_scale": obs}
                     out.append(Case(expr=expr, meta=_jsonable(meta), cell="%s/sample_adapt" % site, kind="ENCLOSURE",
-                                    tac="unfold tune_temp, zeta, hat_acc, star_mh, star_pcn, star_cw; interval with (i_prec 80).",
+                                    tac=("cbv [tune_temps nth]. cbn [Z.add Pos.add Pos.succ]. "
+                                         "unfold tune_temp, zeta, hat_acc, star_mh, star_pcn, star_cw; interval with (i_prec 80)."),
                                     impl_fail=fail, signature=(SITES[site]["sig"].rsplit(".", 1)[0] + ".sample_adapt|scale-out-of-bounds") if fail else ""))
     return out
 
@@ -2128,6 +2161,21 @@ def lattice_verdict(W, kern, comp):
     return None
 
 
+def lattice_fraction_verdict(W, accfrac):
+    """1-d lattices: the fraction of the uniform grid on which the move i -> j is accepted is the MH probability (1 out of a
+    zero-density state into the support, 0 into a zero-density state); pairs of two zero-density states are not judged"""
+    if not accfrac or np.array(W).ndim != 1:
+        return None
+    for (i, j) in sorted(accfrac):
+        if not (0 <= j < len(W)) or (W[i] == 0 and W[j] == 0):
+            continue
+        want = Fraction(1) if W[i] == 0 else min(Fraction(1), Fraction(int(W[j]), int(W[i])))
+        if accfrac[(i, j)] != want:
+            return ("lattice weights %s: the move %d -> %d is accepted for a fraction %s of the uniform grid, the MH probability is %s"
+                    % (W, i, j, accfrac[(i, j)], want))
+    return None
+
+
 def lattice_cases(ctx):
     rng = ctx.rng
     out = []
@@ -2164,12 +2212,7 @@ def lattice_cases(ctx):
                     cqvec([accfrac[k_] for k_ in pairs]),
                     cqvec([accfrac[k_] for k_ in outside]), cqvec([0] * len(outside)))
                 if holes and fail is None:
-                    for (i, j) in pairs:
-                        want = Fraction(1) if W[i] == 0 else min(Fraction(1), Fraction(W[j], W[i]))
-                        if accfrac[(i, j)] != want:
-                            fail = ("lattice weights %s: the move %d -> %d is accepted for a fraction %s of the uniform grid, the MH probability is %s"
-                                    % (W, i, j, accfrac[(i, j)], want))
-                            break
+                    fail = lattice_fraction_verdict(W, accfrac)
             else:
                 expr = "true"
             meta = {"op": "lattice", "site": site, "W": W, "K": K}
@@ -2307,8 +2350,8 @@ def oracle(ctx, meta):
         return None
     if m.get("op") == "lattice":
         with np.errstate(all="ignore"):
-            kern, err, _, comp = lattice_kernel(m["site"], m["W"], m["K"])
-        return err if kern is None else lattice_verdict(m["W"], kern, comp)
+            kern, err, accfrac, comp = lattice_kernel(m["site"], m["W"], m["K"])
+        return err if kern is None else (lattice_verdict(m["W"], kern, comp) or lattice_fraction_verdict(m["W"], accfrac))
     if m.get("op") in ("tune", "tune_window", "tune_twin", "legacy_adapt"):
         return None             # the oracle verdict of these cases (scale in (0,1], 0/1 history, monotone twin) is set when they are built
     c, _ = build_case(ctx, _fix_c(_unjson(m)))
@@ -2340,7 +2383,8 @@ def replay(ctx, meta):
             print("  K(%s -> .) =" % (x,), {y: str(v) for y, v in sorted(kern[x].items())})
         for y in kern:
             print("  sum_x pi(x) K(x,%s) = %s   pi(%s) = %s" % (y, sum(pi[x] * kern[x].get(y, F0) for x in kern), y, pi[y]))
-        print("oracle verdict:", lattice_verdict(m["W"], kern, comp) or "pi K = pi and every coordinate kernel is reversible")
+        print("oracle verdict:", lattice_verdict(m["W"], kern, comp) or lattice_fraction_verdict(m["W"], accfrac)
+              or "pi K = pi, every coordinate kernel is reversible, acceptance fractions are the MH probabilities")
         return 0
     if m.get("op") in ("chain", "tune", "tune_window", "tune_twin", "legacy_adapt") or "site" not in m:
         print(json.dumps(m, indent=1)[:4000])
